@@ -16,7 +16,7 @@ CPLX = ('complex', 'multicomplex')
 HESS = ('Hessdiag', 'Hessian')
 CLASSES = ('Derivative', 'Gradient', 'Jacobian', 'Hessdiag', 'Hessian')
 
-X_SCALARS = [0.0, 1.0, 0.5, -2.3, 1e-3, 100.0, 0.7, -0.5, 3.0, 1e-8, 12.5]
+X_SCALARS = [0.0, 1.0, 0.5, -2.3, 1e-3, 100.0, 0.7, -0.5, 3.0, 1e-8, 12.5, 710.0]
 X_POS = [1.0, 0.5, 1e-3, 100.0, 0.7, 3.0, 2.0]
 
 
@@ -314,9 +314,12 @@ class _TaskGen(object):
     def add_steps(self):
         rng = self.rng
         g = rng.choice(self.gens)[0]
-        self.ops.append({'op': 'steps', 'g': g, 'x': _xspec_elementwise(rng),
-                         'method': rng.choice(self.k['methods']), 'n': rng.choice(self.k['ns']),
-                         'order': rng.choice(self.k['orders'])})
+        op = {'op': 'steps', 'g': g, 'x': _xspec_elementwise(rng),
+              'method': rng.choice(self.k['methods']), 'n': rng.choice(self.k['ns']),
+              'order': rng.choice(self.k['orders'])}
+        if rng.random() < 0.35:
+            op['partial'] = rng.choice([1, 1, 2])
+        self.ops.append(op)
 
     def add_limit(self):
         """A Limit / Residue used for a short history of its own: one to three evaluations (points
